@@ -295,14 +295,24 @@ def fstring_middle_pattern(quote: str, raw: bool) -> str:
 
 
 @functools.lru_cache
+def fstring_spec_literal(quote: str) -> str:
+    """Literal text of a format spec: ordinary characters, a backslash with the character it escapes (the quote too,
+    never a brace) and, in triple-quoted strings, lone quotes."""
+    q = quote[0]
+    lone = rf"|{q}(?!{q}{q})" if len(quote) == 3 else ""
+    return rf"(?:[^\\{q}{{}}\n]|\\(?![{{}}])[^\n]|\\(?=[{{}}]){lone})*"
+
+
+@functools.lru_cache
 def fstring_spec_pattern(quote: str) -> str:
     """Inside a format spec: literal text up to a nested replacement field or the closing brace."""
     q = quote[0]
     lone = rf"|{q}(?!{q}{q})" if len(quote) == 3 else ""  # lone quotes inside a triple-quoted f-string
-    literal = rf"(?:[^{q}{{}}\n]{lone})*"
+    literal = fstring_spec_literal(quote)
     # like CPython, a \N{...} escape belongs to the literal text and ends the part it stands in
     named = rf"(?:[^\\{q}{{}}\n]{lone}|\\(?!N\{{)[^{{}}\n])*\\N\{{[^{{}}{q}\n]*\}}"
     return choice(Named=named, LBrace=literal + r"\{", RBrace=literal + r"\}")
+
 
 tabsize = 8
 
@@ -690,7 +700,10 @@ def handle_end_progs(state: TokenizerState) -> Iterator[TokenInfo]:
         else:
             # like CPython, the end of the line closes the spec of a single-quoted f-string: the rest is lexed as
             # part of the replacement field (where all that can follow is the closing brace)
-            yield state.prog_token(len(state.line.rstrip("\r\n")), Token.FSTRING_MIDDLE)
+            end = len(state.line.rstrip("\r\n"))
+            if state.match(fstring_spec_literal(state.fstring_quote())).end() < end:  # type: ignore[union-attr]
+                raise TokenError("f-string: expecting '}'", (state.lnum, state.pos))  # the quote ends the string first
+            yield state.prog_token(end, Token.FSTRING_MIDDLE)
             state.pop_mode()
     elif (state.in_multi_line_string()) or (state.in_continued_string()):
         state.end_progs[-1].join_line(state)
